@@ -623,6 +623,8 @@ class TreeDef:
         leaves = list(leaves)
         if self.kind == "args":
             return tuple(leaves)
+        if self.kind == "args_none":     # the call f(None, leaf0, leaf1): a positional placeholder with no leaves
+            return (None,) + tuple(leaves)
         if self.kind == "kwargs":
             return (tuple(leaves[:-1]), {"kw": leaves[-1]})
         if self.kind == "single":
